@@ -141,6 +141,8 @@ func jobsFor(prop, tier string) []*Job {
 					Bounds:  fmt.Sprintf("RemoteAddr = ip4:port / [ip6]:port / [ip6%%zone]:port with symbolic contents; lengths ip=%d port=%d zone=%d (any bytes except the separators of the form)", l[0], l[1], l[2])})
 			}
 		}
+		add(&Job{Name: "O3-address-corpus", Pkg: "utils", Harness: "VerifC19Corpus", IncKind: "cvc5", TimeoutS: 60, Solvers: []string{"cvc5", "z3"},
+			Bounds: "8 concrete peer addresses (IPv4, IPv6 loopback, link-local with two zones and without, full IPv6), all pairs: exact token, equal tokens iff equal addresses"})
 		add(&Job{Name: "O2-host-header-dispatch", Pkg: "utils", Harness: "VerifC19Others", IncKind: "cvc5", TimeoutS: 60, Solvers: []string{"cvc5", "z3"},
 			Bounds: "symbolic Host and header value (<= 8 bytes), symbolic variable name (<= 20 bytes)"})
 	case "C16":
